@@ -111,6 +111,7 @@ type Obligation struct {
 	exceptObl *Obligation
 	clause    *Clause
 	ModelWeak bool // model found after dropping background axioms (candidate only)
+	Confirmed []string // thorough tier: the other solvers that also proved the obligation
 	Retried    bool
 	failedPart *Obligation
 	parts     []*Obligation // when set: the obligation holds iff every part does (one part per return path)
